@@ -13,7 +13,23 @@ static long long now_us;
 int __wrap_gettimeofday(struct timeval *tv, void *tz) { tv->tv_sec = now_us / 1000000; tv->tv_usec = now_us % 1000000; return 0; }
 
 #define MAXD 16
-static struct peer { int far; int open; int plans[256]; int np, ip; int finish_ok; } P[MAXD];
+static struct peer { int far; int open; int plans[256]; int np, ip; int finish_ok; unsigned char *q; size_t qn, qcap; } P[MAXD];
+/* bytes fed to a far end that its socket has not accepted yet (floods beyond the socket buffer): kept here and pushed before every pass,
+ * so that the daemon always finds either everything or more than one read's worth */
+static void pushq(int i)
+{
+    while (P[i].open && P[i].qn > 0) {
+        ssize_t n = write(P[i].far, P[i].q, P[i].qn);
+        if (n <= 0) break;
+        memmove(P[i].q, P[i].q + n, P[i].qn - n); P[i].qn -= n;
+    }
+}
+static void feedq(int i, const unsigned char *b, size_t n)
+{
+    if (n == 0) return;
+    if (P[i].qn + n > P[i].qcap) { P[i].qcap = (P[i].qn + n) * 2; P[i].q = realloc(P[i].q, P[i].qcap); }
+    memcpy(P[i].q + P[i].qn, b, n); P[i].qn += n; pushq(i);
+}
 static Device *D[MAXD]; static int nd;
 static ArgList AL[64]; static int nal;
 static int idx(Device *d) { for (int i = 0; i < nd; i++) if (D[i] == d) return i; return -1; }
@@ -30,7 +46,7 @@ static bool stub_connect(Device *dev)
     if (plan == 2) return false;
     if (socketpair(AF_UNIX, SOCK_STREAM, 0, sv) < 0) { perror("socketpair"); exit(3); }
     nonblock_set(sv[0]); nonblock_set(sv[1]);
-    dev->fd = sv[0]; P[i].far = sv[1]; P[i].open = 1;
+    dev->fd = sv[0]; P[i].far = sv[1]; P[i].open = 1; P[i].qn = 0;
     if (plan == 0) { dev->connect_state = DEV_CONNECTED; dev->stat_successful_connects++; return true; }
     dev->connect_state = DEV_CONNECTING;
     return false;
@@ -150,9 +166,9 @@ int main(int argc, char **argv)
         else if (sscanf(line, "FINISH %d %d", &i, &n) == 2) P[i].finish_ok = n;
         else if (sscanf(line, "FEED %d", &i) == 1) {
             char *p = strchr(line + 5, ' '); n = unhex(p + 1, bytes);
-            if (D[i]->fd != NO_FD && P[i].open) { if (write(P[i].far, bytes, n) != n) { printf("HARNESS short write\n"); } }
+            if (D[i]->fd != NO_FD && P[i].open) feedq(i, bytes, n);
         }
-        else if (sscanf(line, "PEERCLOSE %d", &i) == 1) { if (D[i]->fd != NO_FD && P[i].open) { close(P[i].far); P[i].open = 0; } }
+        else if (sscanf(line, "PEERCLOSE %d", &i) == 1) { if (D[i]->fd != NO_FD && P[i].open) { close(P[i].far); P[i].open = 0; P[i].qn = 0; } }
         else if (!strcmp(line, "INIT")) { dev_initial_connect(); printf("ENDINIT\n"); }
         else if (!strncmp(line, "NEWARGS ", 8)) { hostlist_t hl = hl_of(line + 8); AL[nal++] = arglist_create(hl); hostlist_destroy(hl); }
         else if (!strncmp(line, "ENQ ", 4)) {
@@ -165,6 +181,7 @@ int main(int argc, char **argv)
         }
         else if (!strcmp(line, "PASS")) {
             struct timeval z = { 0, 0 }, tmo;
+            for (i = 0; i < nd; i++) pushq(i);
             xpollfd_zero(pfd); dev_pre_poll(pfd); xpoll(pfd, &z);
             timerclear(&tmo);
             dev_post_poll(pfd, &tmo);
